@@ -252,6 +252,23 @@ def encodeStrBody : Text → Text
 /-- `serde_json::to_string(&str)` -/
 def encodeString (s : Text) : Text := 34 :: (encodeStrBody s ++ [34])
 
+/-! ### builders dual to the splitters -/
+
+/-- `v1,v2,…,vn` -/
+def joinElems : List Text → Text
+  | [] => []
+  | [v] => v
+  | v :: v2 :: vs => v ++ 44 :: joinElems (v2 :: vs)
+
+/-- one member `"k":v` (key escaped as serde_json does) -/
+def memberText (kv : Text × Text) : Text := encodeString kv.1 ++ 58 :: kv.2
+
+/-- `"k1":v1,"k2":v2,…` -/
+def joinMembers : List (Text × Text) → Text
+  | [] => []
+  | [kv] => memberText kv
+  | kv :: kv2 :: kvs => memberText kv ++ 44 :: joinMembers (kv2 :: kvs)
+
 /-! ### integer codec -/
 
 def natDigits : Nat → Nat → Text → Text
